@@ -53,7 +53,10 @@ package sio
 //@                        ==> len(mids) == 1 && mids[0] == as(as(msg, map[string]interface{})["to"], string)
 //@   ensures[C14] listlen: is(msg, map[string]interface{}) && ("to" in as(msg, map[string]interface{})) && is(as(msg, map[string]interface{})["to"], []interface{})
 //@                        ==> len(mids) == len(as(as(msg, map[string]interface{})["to"], []interface{}))
+//@   ensures[C14] listelems: is(msg, map[string]interface{}) && ("to" in as(msg, map[string]interface{})) && is(as(msg, map[string]interface{})["to"], []interface{})
+//@                        ==> forall j int :: 0 <= j && j < len(mids) && is(as(as(msg, map[string]interface{})["to"], []interface{})[j], string) ==> mids[j] == as(as(as(msg, map[string]interface{})["to"], []interface{})[j], string)
 //@   loop 0 invariant fresh(mids) && len(mids) == len(vv)
+//@   loop 0 invariant[C14] forall j int :: 0 <= j && j <= rangeindex && is(vv[j], string) ==> mids[j] == as(vv[j], string)
 
 // RunMachine is called at most once per machine id within one RunMachines
 // (ghost set `delivered`, owned by RunMachines).
@@ -153,6 +156,12 @@ package sio
 //@   ensures[C14] noerr: err == nil && acc != nil
 //@   loop 0 invariant wfCrew(c) && wfChanged(c)
 //@   loop 0 invariant[C14] once: forall k string :: ghostin(delivered, k) ==> (k in presented) && presented[k]
+//@   loop 0 invariant[C14] all: forall j int :: 0 <= j && j <= rangeindex && (mids[j] in c.Machines) ==> ghostin(delivered, mids[j])
+//@   loop 0 invariant[C14] presentedall: forall k string :: (k in presented) && presented[k] && (k in c.Machines) ==> ghostin(delivered, k)
+//@   loop 0 invariant[C14] only: len(mids) == 1 ==> forall k string :: ghostin(delivered, k) ==> k == mids[0]
+//@   loop 0 invariant[C14] samecrew: forall k string :: (k in c.Machines) <==> old(k in c.Machines)
+//@   ensures[C14] everyone: err == nil ==> forall j int :: 0 <= j && j < len(mids) && (mids[j] in c.Machines) ==> ghostin(delivered, mids[j])
+//@   ensures[C14] nobodyelse: err == nil && len(mids) == 1 ==> forall k string :: ghostin(delivered, k) ==> k == mids[0]
 
 // The callback ProcessMsg hands to Walked.DoEmitted: every emitted message is
 // fed back to the crew (appended to the breadth-first queue) exactly once and
